@@ -1,0 +1,23 @@
+//go:build verif
+
+package trafficrouting
+
+import (
+	"github.com/openkruise/rollouts/pkg/trafficrouting"
+	"k8s.io/apimachinery/pkg/runtime"
+	"k8s.io/client-go/tools/record"
+	"sigs.k8s.io/controller-runtime/pkg/client"
+)
+
+// NewVerifReconciler builds a TrafficRoutingReconciler exactly as SetupWithManager does, without a manager.
+func NewVerifReconciler(c client.Client, scheme *runtime.Scheme, rec record.EventRecorder) *TrafficRoutingReconciler {
+	return &TrafficRoutingReconciler{Client: c, Scheme: scheme, Recorder: rec,
+		trafficRoutingManager: trafficrouting.NewTrafficRoutingManager(c)}
+}
+
+// VerifSetGracePeriodSeconds overrides the package default grace period and returns the old value.
+func VerifSetGracePeriodSeconds(s int32) int32 {
+	old := defaultGracePeriodSeconds
+	defaultGracePeriodSeconds = s
+	return old
+}
